@@ -366,9 +366,9 @@ func c06Isolation(e *Env) {
 										keyed = true
 									}
 								}
-								// the caller's own file handed in as it is (Compact(file)): nothing was
-								// looked up by name, so there is nothing to key
-								if len(l.Via) == 0 && depth == 0 {
+								// the caller's own file (Compact(file) and what it derives from it): nothing
+								// was looked up in the data directory by name, so there is nothing to key
+								if depth == 0 {
 									keyed = true
 								}
 							}
